@@ -332,7 +332,7 @@ def _wrap_spy():
     base = aioftp.MemoryPathIO
 
     def mk(name, has_path=True):
-        inner = getattr(base, name).__wrapped__  # strip universal_exception
+        inner = getattr(getattr(base, name), "__wrapped__", getattr(base, name))  # strip universal_exception
 
         @universal_exception
         async def method(self, *args, **kwargs):
@@ -345,7 +345,7 @@ def _wrap_spy():
     for name in ("exists", "is_dir", "is_file", "mkdir", "rmdir", "unlink", "stat"):
         setattr(SpyPathIO, name, mk(name))
 
-    rename_inner = base.rename.__wrapped__
+    rename_inner = getattr(base.rename, "__wrapped__", base.rename)
 
     @universal_exception
     async def rename(self, source, destination):
@@ -355,7 +355,7 @@ def _wrap_spy():
 
     SpyPathIO.rename = rename
 
-    open_inner = base._open.__wrapped__
+    open_inner = getattr(base._open, "__wrapped__", base._open)
 
     @universal_exception
     async def _open(self, path, mode="rb", *args, **kwargs):
@@ -367,7 +367,7 @@ def _wrap_spy():
     SpyPathIO._open = _open
 
     for name in ("seek", "write", "read"):
-        inner = getattr(base, name).__wrapped__  # universal_exception stripped; defend_file_methods kept
+        inner = getattr(getattr(base, name), "__wrapped__", getattr(base, name))  # universal_exception stripped; defend_file_methods kept
 
         def mkf(name, inner):
             @universal_exception
@@ -379,7 +379,7 @@ def _wrap_spy():
 
         setattr(SpyPathIO, name, mkf(name, inner))
 
-    close_inner = base.close.__wrapped__
+    close_inner = getattr(base.close, "__wrapped__", base.close)
 
     @universal_exception
     async def close(self, file):
